@@ -354,6 +354,20 @@ func (r *Run) Finish(verifDir, outBase string, explanation string) int {
 	for _, ob := range knownHit {
 		knownList = append(knownList, fmt.Sprintf("%s %s @%s: %s", ob.Rule, ob.Site, ob.Pos, ob.Msg))
 	}
+	nz := func(x []string) []string {
+		if x == nil {
+			return []string{}
+		}
+		return x
+	}
+	r.Assumptions = nz(r.Assumptions)
+	r.Undecided = nz(r.Undecided)
+	r.Notes = nz(r.Notes)
+	r.Controls = nz(r.Controls)
+	violList, knownList, funcs, samples = nz(violList), nz(knownList), nz(funcs), nz(samples)
+	if len(r.Assumptions) == 0 {
+		r.Assumptions = []string{"Go type checker, go/packages loader and go/cfg are trusted; the sources under /repo are what is built (no build tags, cgo or generated code in the repository packages)"}
+	}
 	ev := map[string]any{
 		"property_id": r.Prop,
 		"tier":        r.Tier,
